@@ -16,7 +16,7 @@ from vp.flo.engine import all_events
 
 PROPERTY = "C20"
 LEVEL = "exploration"
-PROFILE = {"driver": True, "data_simple": True, "one_marker_per_act": True, "taskables": (1, 3), "auxes": (0, 1), "slaves": (0, 0),
+PROFILE = {"inject": True, "driver": True, "data_simple": True, "one_marker_per_act": True, "taskables": (1, 3), "auxes": (0, 1), "slaves": (0, 0),
            "aux_policy": "clean", "frames": (1, 4), "depth": 2, "acts": (1, 5), "ticks": (4, 14),
            "kinds": {"data": 8, "go": 9, "let": 2, "timeout": 1, "repeat": 1, "aux": 1, "auxif": 1, "bid": 0, "done": 0, "fiat": 0},
            "needs": {"cmp": 1, "bool": 0, "elapsed": 0, "recurred": 2, "done": 0, "status": 0, "auxdone": 0, "updated": 7, "changed": 6}}
@@ -57,6 +57,8 @@ def classes(prog, r):
             refused = True
     if refused:
         out.append("go-with-true-need-not-taken")
+    if prog.get("inject"):
+        out.append("field-added-from-outside")
     return out
 
 
